@@ -446,14 +446,13 @@ let run_solve_cmd lines =
       let c = mk_cur l in
       let par = next_b c in let _threads = next_i c in let _ctor = next_i c in
       let flv = next_i c in let cache = next_b c in let fringe = next_i c in let width = next_n c in
-      let cutk = next_n c in let dom = next_b c in let hasprimal = next_b c in
-      let primal = if hasprimal then begin
+      let cutk = next_n c in let dom = next_b c in let nprimal = next_i c in
+      let primals = List.init nprimal (fun _ ->
           let pv = next_z c in let plen = next_i c in
-          let p = List.init plen (fun _ -> let x = next_n c in let v = next_z c in { d_var = x; d_val = v }) in Some (pv, p) end
-        else None in
+          let p = List.init plen (fun _ -> let x = next_n c in let v = next_z c in { d_var = x; d_val = v }) in (pv, p)) in
       if par then print_endline "S SKIP" else begin
         let cfg = tb_sconfig ti (flavour_of flv) cache (fringe <> 0) dom width cutk in
-        let r = tb_maximize cfg (nat_of_int 100000) primal in
+        let r = tb_maximize_multi cfg (nat_of_int 100000) primals in
         if r.r_crash then print_endline "S CRASH"
         else if r.r_outoffuel then print_endline "S HANG"
         else
@@ -478,11 +477,11 @@ let run_par_cmd lines =
       let c = mk_cur cfgpart in
       let _par = next_b c in let threads = next_i c in let ctor = next_i c in
       let flv = next_i c in let cache = next_b c in let fringe = next_i c in let width = next_n c in
-      let cutk = next_n c in let dom = next_b c in let hasprimal = next_b c in
-      let primal = if hasprimal then begin
+      let cutk = next_n c in let dom = next_b c in let nprimal = next_i c in
+      let primals = List.init nprimal (fun _ ->
           let pv = next_z c in let plen = next_i c in
-          let p = List.init plen (fun _ -> let x = next_n c in let v = next_z c in { d_var = x; d_val = v }) in Some (pv, p) end
-        else None in
+          let p = List.init plen (fun _ -> let x = next_n c in let v = next_z c in { d_var = x; d_val = v }) in (pv, p)) in
+      let primal = (match primals with [] -> None | x :: _ -> Some x) in
       let sched = List.map (fun t -> nat_of_int (int_of_string t)) (tokens (" x " ^ chpart) |> List.tl) in
       let cfg = tb_sconfig ti (flavour_of flv) cache (fringe <> 0) dom width cutk in
       let r = tb_par_maximize cfg (nat_of_int 30000) (nat_of_int ctor) (nat_of_int threads) primal sched in
